@@ -6,7 +6,7 @@ CONSTANTS
   Methods <- FullMethods
   Shardings <- FullShardings
   Codes <- FullCodes
-  CfgSpace <- FullCfg
+  CfgSpace <- MidCfg
   MaxLen = 6
   AioForwardsMethod = TRUE
   CopyInfoLayout = "byInfo"
